@@ -159,6 +159,21 @@ def tsan_reports(err):
     return reps
 
 
+def lockguard_functions_by_text(repo):
+    """INDEPENDENT of the clang translator: functions of jitallocator.cpp / jitruntime.cpp whose text declares a LockGuard (regex over
+    the source; a function header is a non-indented line ending in '{')."""
+    out = set()
+    for rel in ("asmjit/core/jitallocator.cpp", "asmjit/core/jitruntime.cpp"):
+        cur = None
+        for line in open(os.path.join(repo, rel), errors="replace"):
+            m = re.match(r"^[A-Za-z_].*?([A-Za-z_][\w:]*)\s*\([^;]*\)[^;]*\{\s*$", line)
+            if m and not line.startswith(("if", "for", "while", "switch", "namespace", "class", "struct")):
+                cur = m.group(1)
+            if re.search(r"\bLockGuard\s+\w+\s*[({]", line) and not line.lstrip().startswith("//") and cur:
+                out.add(cur)
+    return out
+
+
 def regen_own(ck, files):
     """Translator tie, own variant of vlib.Check.coq_regen (which recompiles EVERY file of coq/gen, minutes once all properties are
     merged): Properties_C11.v imports only VerifGen.LockSkeleton and VerifGen.WritableGlobals, so only these two are written to a
@@ -199,8 +214,9 @@ def sections_plan(rng, tier):
     sd = lambda: rng.randrange(1, 1 << 30)
     plan = [(sd(), 4, 400, 0, 64, 65536), (sd(), 8, 250, 2, 64, 65536), (sd(), 16, 120, 8, 128, 65536), (sd(), 3, 500, 16 | 2, 256, 131072)]
     if tier != "quick":
-        plan += [(sd(), rng.choice([2, 4, 8, 12, 16]), 1500, rng.choice([0, 2, 8, 10, 16, 18, 26]), rng.choice([64, 128, 256]),
-                  rng.choice([65536, 131072, 1 << 20])) for _ in range(24)]
+        # block sizes stay small: the extracted model works on unary-positive bit vectors, its step time grows with the block area
+        plan += [(sd(), rng.choice([2, 4, 8, 12, 16]), 400, rng.choice([0, 2, 8, 10, 16, 18, 26]), rng.choice([64, 128, 256]),
+                  rng.choice([65536, 131072])) for _ in range(12)]
     return plan
 
 
@@ -214,46 +230,69 @@ def sections_check(ck, rng):
     if failed:
         raise RuntimeError("cannot build the C09 model theories needed for the sections replay: %s" % failed)
     model = ck.ocaml_model("Extract_Jit.v", ["zconv.ml", "c09_driver.ml"], name="c09")
-    info = {"runs": 0, "sections": 0, "sections_by_op": {}, "interleaved_sections": 0, "mismatches": 0, "configs": []}
-    for cfg in sections_plan(rng, ck.tier):
+    info = {"runs": 0, "sections": 0, "sections_by_op": {}, "interleaved_sections": 0, "mismatches": 0, "configs": [],
+            "ownership_discipline_violations": 0}
+
+    def produce(cfg):
         seed, threads, ops, opt, gran, bs = cfg
         rc, out, err = vlib.sh([exe] + [str(x) for x in cfg], timeout=300)
         lines = out.splitlines()
-        rp = {"sections_cmd": "<c11sec harness> %s" % " ".join(str(x) for x in cfg), "seed": seed, "threads": threads, "ops": ops, "opt": opt,
-              "granularity": gran, "block_size": bs}
         if rc != 0 or not lines or not lines[-1].startswith("END"):
-            ck.violation("C11/sections/harness-crash", "sections harness %s rc=%d: %s" % (cfg, rc, (out[-300:] + err[-600:])), rp)
-            continue
+            return cfg, rc, out, err, None
         head = lines[0].split(" ;; ")
         recs = [l.split(" ;; ") for l in lines[1:-1]]
         stream, expect, handle_of, nalloc = [head[0]], [head[1]], {}, 0
-        prev_tid, inter = None, 0
-        for r in recs:
+        prev_tid, inter, by_op, owner, live, disc = None, 0, {}, {}, set(), []
+        for si, r in enumerate(recs):
             seq, tid, aseq = r[0].split()
             cmd = r[1]
             if cmd.startswith("A"):
                 handle_of[seq] = nalloc
+                if r[2].startswith("A ok"):
+                    owner[nalloc] = tid
+                    live.add(nalloc)
                 nalloc += 1
                 line = cmd
             elif cmd == "T":
                 line = "T"
             else:
                 h = handle_of.get(aseq, -1)
+                # per-thread ownership discipline (conc_ok of Conc/RefineProofs.v): release / shrink / query only of a span this thread
+                # obtained itself and has not released
+                if h not in live or owner.get(h) != tid:
+                    disc.append((si, tid, cmd, h))
+                if cmd.startswith("R") and h in live:
+                    live.discard(h)
                 parts = cmd.split()
                 line = "%s %d%s" % (parts[0], h, (" " + " ".join(parts[1:])) if len(parts) > 1 else "")
             stream += [line, "D", "T"]
             expect += [r[2], r[3], r[4]]
-            k = cmd[0]
-            info["sections_by_op"][k] = info["sections_by_op"].get(k, 0) + 1
+            by_op[cmd[0]] = by_op.get(cmd[0], 0) + 1
             if prev_tid is not None and tid != prev_tid:
                 inter += 1
             prev_tid = tid
         stream.append("X"); expect.append("X")
-        rcm, outm, errm = vlib.sh([model, "15"], inp="\n".join(stream) + "\n", timeout=600)
-        got = outm.splitlines()
+        rcm, outm, errm = vlib.sh([model, "15"], inp="\n".join(stream) + "\n", timeout=900)
+        return cfg, rc, out, err, (recs, stream, expect, inter, by_op, disc, rcm, outm.splitlines(), errm)
+
+    with ThreadPoolExecutor(max_workers=4) as ex:
+        produced = list(ex.map(produce, sections_plan(rng, ck.tier)))
+    for cfg, rc, out, err, res in produced:
+        seed, threads, ops, opt, gran, bs = cfg
+        rp = {"sections_cmd": "<c11sec harness> %s" % " ".join(str(x) for x in cfg), "seed": seed, "threads": threads, "ops": ops, "opt": opt,
+              "granularity": gran, "block_size": bs}
+        if res is None:
+            ck.violation("C11/sections/harness-crash", "sections harness %s rc=%d: %s" % (cfg, rc, (out[-300:] + err[-600:])), rp)
+            continue
+        recs, stream, expect, inter, by_op, disc, rcm, got, errm = res
+        for k, v in by_op.items():
+            info["sections_by_op"][k] = info["sections_by_op"].get(k, 0) + v
         info["runs"] += 1; info["sections"] += len(recs); info["interleaved_sections"] += inter
+        info["ownership_discipline_violations"] += len(disc)
         info["configs"].append({"seed": seed, "threads": threads, "ops_per_thread": ops, "options": opt, "granularity": gran, "block_size": bs,
                                 "sections": len(recs), "thread_switches": inter})
+        if disc:
+            ck.violation("C11/sections/harness-discipline", "the sections harness itself broke the per-thread ownership discipline (conc_ok): %s" % (disc[:3],), rp, no_input=True)
         if rcm != 0 or len(got) != len(expect):
             ck.violation("C11/sections/model-crash", "C09 model driver rc=%d produced %d lines for %d commands: %s" % (rcm, len(got), len(expect), errm[-300:]), rp, no_input=True)
             continue
@@ -285,6 +324,26 @@ def run(ck):
     if sk_info["untranslated_nodes"]:
         # a defect of the checking machinery, not a verdict: the traversal skipped evaluated member accesses / calls
         raise RuntimeError("c11_skeleton.py did not translate some member accesses / calls: %s" % sk_info["untranslated_nodes"])
+    # independent cross-check of the (trusted) translator: the functions in which it found a LockGuard = the functions whose text has one
+    def locked_fns(t, memo, acc):
+        k = t[0]
+        if k == "locked":
+            acc.add(t[1]); locked_fns(t[4], memo, acc)
+        elif k == "seq":
+            for x in t[1]:
+                locked_fns(x, memo, acc)
+        elif k == "alt":
+            locked_fns(t[1], memo, acc); locked_fns(t[2], memo, acc)
+        elif k == "loop":
+            locked_fns(t[1], memo, acc)
+        elif k == "inl":
+            locked_fns(memo[t[1]][1], memo, acc)
+    by_ast = set()
+    for _sig, _name, tree in eps2:
+        locked_fns(tree, bld.memo, by_ast)
+    by_text = lockguard_functions_by_text(vlib.REPO)
+    if by_ast != by_text:
+        raise RuntimeError("translator cross-check failed: LockGuard found by the AST translator in %s, by the text scan in %s" % (sorted(by_ast), sorted(by_text)))
     st_text, st_entries = S.gen_statics(vlib.REPO)
     r = regen_own(ck, {"LockSkeleton.v": sk_text, "WritableGlobals.v": gl_text, "StaticsSkeleton.v": st_text})
     gen_dir, gen_failed, diags = None, [], {}
@@ -363,6 +422,8 @@ def run(ck):
     for kind, thm in (("check_program", "C11_all_shared_access_locked"), ("coverage_diag", "C11_skeleton_coverage"), ("check_globals", "C11_no_shared_mutable_globals"),
                       ("check_statics", "C11_statics_guarded")):
         for d in ([] if explored_bad else diags.get(kind, [])):
+            if kind == "check_statics" and d.split(": ", 1)[-1].startswith("a normal call of") or d.startswith("a normal call of"):
+                thm = "C11_statics_warmup_sets_flags"
             key = "C11/skeleton/" + re.sub(r"\s+", "-", d)[:120]
             ck.violation(key, "%s fails on the regenerated %s: %s%s" % (
                 thm, {"check_globals": "WritableGlobals.v", "check_statics": "StaticsSkeleton.v"}.get(kind, "LockSkeleton.v"), d,
@@ -394,7 +455,7 @@ def run(ck):
          "ast_kinds_without_rule": sk_info["unknown_ast_kinds"], "untranslated_member_accesses_or_calls": sk_info["untranslated_nodes"],
          "lock_implementation": sk_info["lock_impl"],
          "access_sites": len(st), "access_sites_under_lock": locked_sites,
-         "statics_entry_points": st_entries,
+         "statics_entry_points": st_entries, "lockguard_functions_ast_equals_text_scan": sorted(by_ast),
          "writable_globals": [list(x) for x in gl_syms],
          "data_objects_per_translation_unit": getattr(S.gen_globals, "per_tu", {}),
          "writable_globals_justification": allow_list_justifications(), "object_symbols_by_section": getattr(S.gen_globals, "sections", {}),
@@ -405,16 +466,34 @@ def run(ck):
                          "runs": [{"mode": c[0], "seed": c[1], "threads": c[2], "ops_per_thread": c[3], "options": c[4]} for c in plan],
                          "replay_rule": "--replay <violation.json> re-runs the recorded (mode, seed, threads, ops, options) 20 times",
                          "summaries": lines},
-         "seq_refines_checked": dict(sec_info, note="hypothesis seq_refines of C11_concurrent_refines_c09 checked on sampled concurrent executions: every "
-                                     "critical section (captured inside the lock, in acquire order) equals the step of the extracted C09 model; also an empirical "
-                                     "linearisability check in acquire order"),
+         "seq_refines_checked": dict(sec_info, note="hypothesis seq_refines of C11_concurrent_refines_c09 COMPARED on the concurrent executions of this run (numbers above): "
+                                     "every critical section, captured inside the lock in acquire order, equals the step of the extracted C09 model (operation answer, "
+                                     "whole block table, counters); the per-thread ownership discipline conc_ok is checked on the same histories"),
+         "proved_vs_compared": {
+             "proved_for_all_executions_of_the_model": [
+                 "checker soundness (C11_locked_entry_points, C11_outside_lock_thread_local): every path of every entry-point skeleton",
+                 "C11_drf, C11_linearizable, C11_holder_never_blocks: any number of threads, any call sequences, every interleaving the mutex admits",
+                 "C11_c09_lifts (+ invariant / live_disjoint / stats_exact, C11_owned_spans_distinct): every disciplined concurrent history, every configuration",
+                 "C11_concurrent_refines_c09: every cell-level execution, under seq_refines + conc_ok (C11_ownership_discipline_decided decides the latter)",
+                 "C11_init_once_published(_by_knowledge), C11_independent_threads",
+                 "C11_statics_warm_no_writes, C11_statics_warm_after_first_call, C11_statics_flags_frame: every path of the statics skeletons, every flag valuation"],
+             "re_proved_on_this_run_over_regenerated_data": {
+                 "LockSkeleton.v": "skeleton_ok, skeleton_coverage, lock_impl_ok, skeleton_nonvacuous over %d access sites of %d entry points" % (len(st), len(sk_info["entry_points"])),
+                 "WritableGlobals.v": "globals_ok over %d writable data objects of %d translation units" % (len(gl_syms), len(getattr(S.gen_globals, "per_tu", {}))),
+                 "StaticsSkeleton.v": "statics_ok, statics_warmup_ok over %d functions" % len(st_entries)},
+             "compared_on_this_run": {
+                 "critical_sections_vs_C09_model": sec_info["sections"], "concurrent_runs": sec_info["runs"], "mismatches": sec_info["mismatches"],
+                 "thread_switches_between_consecutive_sections": sec_info["interleaved_sections"]},
+             "explored_on_this_run_not_proved": {"tsan_runs": len(plan), "operations": ops_total, "tsan_reports": tsan_total,
+                                                 "why": "real schedules and the C++ memory model are outside the Coq model"}},
          "cold_start_outside_premise": dict(cold, note="threads whose first AsmJit call constructs a JitRuntime: CpuInfo::host()/VirtMem::info() initialise "
                                                         "concurrently; excluded by the premise 'once the host information has been initialised'; reports here are "
                                                         "recorded, never counted as violations")},
         assumptions=["ASSUMED, not proved: operations on std::atomic objects never constitute a data race (C++ [intro.races]); the statics skeleton maps them to silent steps",
                      "ASSUMED, not proved: no address forging - a thread can use the address of an allocator object only after reading it from a cell (object knowledge "
                      "hypothesis of C11_init_once_published_by_knowledge); Span::_block belongs to the thread that owns the span",
-                     "ASSUMED, checked on sampled executions only: seq_refines (each critical section alone = one step of the C09 model) - see coverage.seq_refines_checked",
+                     "ASSUMED in C11_concurrent_refines_c09, compared on every run (coverage.seq_refines_checked: sections / mismatches): seq_refines - each critical section "
+                     "alone is one step of the C09 model",
                      "theorems are about the mutex model (one lock, sequentially consistent shared cells keyed by object and member); the step from the "
                      "lock skeleton to the C++ memory model / pthread mutex semantics is trusted and only probed by ThreadSanitizer",
                      "tools/c11_skeleton.py is trusted to see every MemberExpr / LockGuard / call of the entry points (clang 14 AST); accesses through "
